@@ -1671,6 +1671,10 @@ func (h *ResponseHeader) GetAll(key string) []string {
 }
 
 func appendHeaderLine(dst, key, value []byte) []byte {
+	if len(key) == 0 {
+		// an empty field name is as invalid as one with a bad byte: skip the field.
+		return dst
+	}
 	for _, k := range key {
 		// if header field contains invalid key, just skip it.
 		if bytesconv.ValidHeaderFieldNameTable[k] == 0 {
